@@ -27,6 +27,9 @@ const (
 	Systemerr = 3
 )
 
+// ErrReadAfterClose is what a reader returns once it was closed.
+var ErrReadAfterClose = errors.New("fakedocker: read on closed log stream")
+
 // EncodeFrame encodes one frame of Docker's multiplexed log stream: 8-byte header (type, three
 // zero bytes, big-endian payload length) followed by the payload.
 func EncodeFrame(typ byte, payload []byte) []byte {
@@ -310,13 +313,18 @@ type reader struct {
 
 func (r *reader) Read(p []byte) (int, error) {
 	r.d.mu.Lock()
-	if r.closed {
+	closed := r.closed
+	if closed {
 		r.d.readAfterClose++
 	}
 	if r.d.done {
 		r.d.readAfterDone++
 	}
 	r.d.mu.Unlock()
+	if closed {
+		// like net/http: "http: read on closed response body"
+		return 0, ErrReadAfterClose
+	}
 
 	if len(p) == 0 {
 		return 0, nil
